@@ -22,15 +22,16 @@ var errBoom = errors.New("boom")
 
 // schedReader is the reader "schedule": chunk sizes (0 = zero-length read), how the end is delivered, optional failure.
 type schedReader struct {
-	data    []byte
-	chunks  []int
-	ci      int
-	off     int
-	eofWith bool // deliver io.EOF together with the last bytes
-	failAt  int  // -1 never; otherwise errBoom once off reaches failAt (data[failAt:] is never delivered)
-	errWith bool // deliver errBoom together with the last bytes before failAt
-	calls   int
-	done    error // the error this reader has returned (sticky)
+	scribble bool
+	data     []byte
+	chunks   []int
+	ci       int
+	off      int
+	eofWith  bool // deliver io.EOF together with the last bytes
+	failAt   int  // -1 never; otherwise errBoom once off reaches failAt (data[failAt:] is never delivered)
+	errWith  bool // deliver errBoom together with the last bytes before failAt
+	calls    int
+	done     error // the error this reader has returned (sticky)
 }
 
 func (r *schedReader) limit() int {
@@ -47,7 +48,19 @@ func (r *schedReader) final() error {
 	return io.EOF
 }
 
-func (r *schedReader) Read(p []byte) (int, error) {
+func (r *schedReader) Read(p []byte) (n int, err error) {
+	if r.scribble {
+		// the rest of p is scratch space for the reader (io.Reader contract)
+		defer func() {
+			for i := n; i < len(p); i++ {
+				p[i] = 0xAA
+			}
+		}()
+	}
+	return r.read(p)
+}
+
+func (r *schedReader) read(p []byte) (int, error) {
 	r.calls++
 	if r.done != nil {
 		return 0, r.done
@@ -107,6 +120,7 @@ func genReader(t *rapid.T, data []byte, allowFail bool) *schedReader {
 		r.chunks = append(r.chunks, 1) // a reader that never delivers anything is not a legal io.Reader schedule
 	}
 	r.eofWith = rapid.Bool().Draw(t, "eofWith")
+	r.scribble = rapid.Bool().Draw(t, "scribble")
 	if allowFail && rapid.IntRange(0, 3).Draw(t, "fail") == 0 {
 		r.failAt = rapid.IntRange(0, len(data)).Draw(t, "failAt")
 		r.errWith = rapid.Bool().Draw(t, "errWith")
